@@ -96,6 +96,17 @@ CHECKS["C06"] = dict(
     technique="Lean 4 proof (mutual induction over the schema with threaded anchors; refinement of the stateful reader to the pure layout; composition with the RECFM_N invariant) + differential correspondence",
     design="5/C06")
 
+CHECKS["C10"] = dict(
+    text="Lean 4: value_local (non-interference: the result at a location depends only on the byte ranges `touched` lists; for an "
+         "elementary item exactly its own range; a oneOf reads only its first alternative), layout_depends_only_on_counters (navigation "
+         "decodes nothing but DEPENDING ON counters), name_commutes, index_commutes, ref_value, value_object, row_values, "
+         "index_out_of_range_refused. The value model (Layout.valueAt composed with the C02 decoder model) is corresponded with the real "
+         "NDNav on every path of generated records, valid and with each field in turn corrupted; decoded byte ranges are compared with `touched`.",
+    note="Trusted: as C01/C02; evaluation is fuel-indexed (fuel 64 in the driver, theorems hold for every fuel); DNav/WBNav coherence is "
+         "checked by execution only (their model is plain indexing, C15/C09).",
+    technique="Lean 4 proof (non-interference by structural induction on the evaluation; commutation lemmas) + differential correspondence with fault enumeration over fields",
+    design="5/C10")
+
 NOT_APPLICABLE = {
 }
 
